@@ -8,9 +8,9 @@ CASES = {'quick': 2400, 'thorough': 60000}
 TARGETS = sorted(c.__name__ for c in models.TREE_MODELS.values())
 SMALL_BLOCKS = 4      # runner: every 4th case keeps its stores in 2..10-token blocks
 GATES = {
-    'quick': {'cases_in_small_blocks': 50, 'evaluations': 6000, 'accepted_File': 1200, 'targets_accepted_ge5': 33, 'layout_comment_before_dedent': 30,
+    'quick': {'cases_in_small_blocks': 50, 'evaluations': 6000, 'accepted_File': 1200, 'targets_accepted_ge5': 30, 'layout_comment_before_dedent': 30,
               'layout_ws_only_line': 100, 'layout_no_final_newline': 200, 'layout_crlf': 300,
-              'inline_targets_respaced_multiline': 800},
+              'inline_targets_respaced_multiline': 500, 'line_targets_reindented': 1500},
     'thorough': {'evaluations': 150000, 'accepted_File': 30000, 'targets_accepted_ge5': 33},
 }
 RULE = ('case = one generated document (normal or hostile profile; thorough adds 50..400-directive files) parsed as File with '
@@ -157,6 +157,24 @@ def run_case(col, r, idx):
             if vtext != stext:
                 col.count('inline_targets_respaced_multiline')
                 _check(col, vtext, t, r.random() < 0.5, 'sub-model text re-spaced over several lines')
+        if not t.INLINE and r.random() < 0.3:
+            # line-oriented targets with their indentation disturbed (first line unindented, a later line unindented or indented
+            # deeper, first line indented): mostly rejected; whatever parse() accepts has to be kept as it is
+            lines = stext.split('\n')
+            how = r.choice(['first-unindented', 'later-unindented', 'later-deeper', 'first-indented'])
+            k = r.randrange(1, len(lines)) if len(lines) > 1 else 0
+            if how == 'first-unindented':
+                lines[0] = lines[0].lstrip(' \t')
+            elif how == 'later-unindented':
+                lines[k] = lines[k].lstrip(' \t')
+            elif how == 'later-deeper':
+                lines[k] = '    ' + lines[k]
+            else:
+                lines[0] = r.choice(['  ', '\t']) + lines[0]
+            vtext = '\n'.join(lines)
+            if vtext != stext:
+                col.count('line_targets_reindented')
+                _check(col, vtext, t, r.random() < 0.5, f'sub-model text with disturbed indentation ({how})')
     if idx % 601 == 0:
         col.sample({'text': text, 'profile': 'hostile' if prof.hostile else 'default', 'sub_models_reparsed': len(seen)})
 
